@@ -13,7 +13,8 @@ NEXUS_WORDS = ["#NEXUS", "BEGIN", "END", ";", "TAXA", "CHARACTERS", "DATA", "TRE
                "=", "2", "4", "TAXLABELS", "A", "B", "FORMAT", "DATATYPE", "DNA", "MATRIX", "ACGT", "TREE", "t1",
                "(A,B)", "TRANSLATE", "LINK", "TITLE", "x", "CHARSET", "1-2", ",", "FOO", "[c]", "'q r'", "ENDBLOCK",
                "ASSUMPTIONS", "PAUP", "(", ")", ":", "1.5", "ALL", "\\", "3", "."]
-NEXUS_KEYWORDS = ["BEGIN", "END", ";", "TAXA", "CHARACTERS", "DATA", "TREES", "SETS", "DIMENSIONS", "NTAX=2", "NCHAR=4",
+NEXUS_KEYWORDS = ["INTERLEAVE", "INTERLEAVE=NO", "MATCHCHAR=.", 'SYMBOLS="01"', "DATATYPE=STANDARD", "DATATYPE=CONTINUOUS",
+                  "DATATYPE=PROTEIN", "{", "}", "BEGIN", "END", ";", "TAXA", "CHARACTERS", "DATA", "TREES", "SETS", "DIMENSIONS", "NTAX=2", "NCHAR=4",
                   "TAXLABELS", "FORMAT", "DATATYPE=DNA", "MATRIX", "TREE", "TRANSLATE", "LINK", "TITLE", "CHARSET",
                   "ENDBLOCK", "#NEXUS", "LINK TAXA = x;", "LINK FOO = x;", "TITLE t;", "CHARSET c = 1-2;", "GAP=-",
                   "MISSING=?", "=", ",", "(", ")"]
@@ -55,13 +56,17 @@ def dna_seq(rng, n, gaps=True):
     return "".join(rng.choice(alpha) for _ in range(n))
 
 
-def gen_nexus(rng, structure=None):
+CHAR_FLAVOURS = ["dna", "dna-fmt", "interleave", "multistate", "standard", "symbols", "protein", "rna", "continuous",
+                 "matchchar", "nucleotide", "noformat", "interleave-continuous", "gapmissing"]
+
+
+def gen_nexus(rng, structure=None, flavour=None):
     """a valid NEXUS document; returns (text, structure name)"""
     structure = structure or rng.choice(STRUCTURES)
     nt = rng.randint(2, 4)
     nc = rng.randint(2, 6)
     labels = rng.sample([l for l in LABELS if l != "'q r'"], nt)
-    nl = rng.choice(["\n", "\n", " "])
+    nl = rng.choice(["\n", "\n", " "]) if structure not in ("interleaved+trees", "char-flavours", "flavour") else "\n"
     ind = rng.choice(["", "  "])
     end = rng.choice(["END;", "END;", "ENDBLOCK;", "end;"])
     out = ["#NEXUS"]
@@ -77,17 +82,72 @@ def gen_nexus(rng, structure=None):
         b.append(end)
         return b
 
-    def chars(kind="CHARACTERS", title=None, link=None, with_ntax=False):
+    def chars(kind="CHARACTERS", title=None, link=None, with_ntax=False, flavour=flavour):
+        flavour = flavour or rng.choice(["dna", "dna", "dna-fmt", "interleave", "multistate", "standard", "symbols",
+                                         "protein", "rna", "continuous", "matchchar", "nucleotide", "noformat",
+                                         "interleave-continuous", "gapmissing"])
         b = ["BEGIN %s;" % kind]
         if title:
             b.append(ind + "TITLE %s;" % title)
         if link:
             b.append(ind + "LINK TAXA = %s;" % link)
         b.append(ind + "DIMENSIONS %sNCHAR=%d;" % ("NTAX=%d " % nt if with_ntax else "", nc))
-        b.append(ind + "FORMAT DATATYPE=DNA%s;" % rng.choice(["", " GAP=- MISSING=?", " MISSING=? GAP=-"]))
+        seq = lambda alpha: "".join(rng.choice(alpha) for _ in range(nc))
+        rows = None
+        if flavour == "dna":
+            fmt, rows = "DATATYPE=DNA", [dna_seq(rng, nc) for _ in labels]
+        elif flavour == "dna-fmt":
+            fmt, rows = "DATATYPE=DNA" + rng.choice([" GAP=- MISSING=?", " MISSING=? GAP=-"]), [dna_seq(rng, nc) for _ in labels]
+        elif flavour == "gapmissing":
+            fmt, rows = "DATATYPE=STANDARD GAP=x MISSING=n", [seq("01xn") for _ in labels]
+        elif flavour == "multistate":
+            fmt = "DATATYPE=DNA"
+            rows = []
+            for _ in labels:
+                cells = [rng.choice(["A", "C", "G", "T", "{AG}", "(CT)", "{A C}", "{A,G}", "(C, T)", "-"]) for _ in range(nc)]
+                rows.append("".join(cells))
+        elif flavour == "standard":
+            fmt, rows = "DATATYPE=STANDARD", [seq("0123?-") for _ in labels]
+        elif flavour == "symbols":
+            fmt, rows = rng.choice(['DATATYPE=STANDARD SYMBOLS="0 1 2"', 'SYMBOLS="01 2"', 'SYMBOLS = " a b c "']), None
+            rows = [seq("012" if "0" in fmt else "abC") for _ in labels]
+        elif flavour == "protein":
+            fmt, rows = "DATATYPE=PROTEIN", [seq("ACDEFGHIKLMNPQRSTVWY-?X") for _ in labels]
+        elif flavour == "rna":
+            fmt, rows = "DATATYPE=RNA", [seq("ACGU-?N") for _ in labels]
+        elif flavour == "nucleotide":
+            fmt, rows = "DATATYPE=NUCLEOTIDE", [seq("ACGTU-?") for _ in labels]
+        elif flavour == "matchchar":
+            fmt = "DATATYPE=DNA" + rng.choice(["", " MATCHCHAR=."])
+            first = dna_seq(rng, nc, gaps=False)
+            rows = [first] + ["".join(rng.choice([c, "."]) for c in first) for _ in labels[1:]]
+        elif flavour == "noformat":
+            fmt, rows = None, [seq("0123") for _ in labels]
+        elif flavour in ("continuous", "interleave-continuous"):
+            fmt = "DATATYPE=CONTINUOUS" + (" INTERLEAVE" if flavour.startswith("inter") else "")
+            rows = [" ".join(rng.choice(["0.5", "1", "-2.25", "1e-3", "3.0"]) for _ in range(nc)) for _ in labels]
+        elif flavour == "interleave":
+            fmt = "DATATYPE=DNA " + rng.choice(["INTERLEAVE", "INTERLEAVE=YES", "INTERLEAVE=yes GAP=-"])
+            rows = [dna_seq(rng, nc) for _ in labels]
+        if fmt:
+            b.append(ind + "FORMAT %s;" % fmt)
         b.append(ind + "MATRIX")
-        for l in labels:
-            b.append(ind + "%s %s" % (l, dna_seq(rng, nc)))
+        if flavour == "interleave" and nc >= 2:
+            h = nc // 2
+            for l, r in zip(labels, rows):
+                b.append(ind + "%s %s" % (l, r[:h]))
+            b.append("")
+            for l, r in zip(labels, rows):
+                b.append(ind + "%s %s" % (l, r[h:]))
+        elif flavour == "interleave-continuous" and nc >= 2:
+            h = nc // 2
+            for l, r in zip(labels, rows):
+                b.append(ind + "%s %s" % (l, " ".join(r.split()[:h])))
+            for l, r in zip(labels, rows):
+                b.append(ind + "%s %s" % (l, " ".join(r.split()[h:])))
+        else:
+            for l, r in zip(labels, rows):
+                b.append(ind + "%s %s" % (l, r))
         b.append(ind + ";")
         b.append(end)
         return b
@@ -123,7 +183,9 @@ def gen_nexus(rng, structure=None):
     def unknown():
         return ["BEGIN PAUP;", ind + "set autoclose=yes;", ind + "log file=x.log;", end]
 
-    if structure == "taxa":
+    if structure == "flavour":
+        out += taxa() + chars(flavour=flavour) + (trees_block(translate=True) if rng.random() < 0.5 else [])
+    elif structure == "taxa":
         out += taxa()
     elif structure == "taxa+characters":
         out += taxa() + chars()
@@ -145,13 +207,19 @@ def gen_nexus(rng, structure=None):
         out += taxa() + chars() + trees_block(translate=rng.random() < 0.5) + sets() + unknown()
     elif structure == "two-taxa-blocks":
         out += taxa(title="one") + taxa(title="two") + trees_block(link="one")
+    elif structure == "interleaved+trees":
+        # an interleaved MATRIX leaves the tokenizer capturing line ends: what follows is read in that mode
+        out += taxa() + chars(flavour="interleave") + trees_block(translate=rng.random() < 0.5) + sets()
+    elif structure == "char-flavours":
+        out += taxa() + chars() + chars(kind="CHARACTERS")
     else:
         raise ValueError(structure)
     return nl.join(out) + "\n", structure
 
 
 STRUCTURES = ["taxa", "taxa+characters", "data", "taxa+trees", "taxa+trees-translate", "trees-only-translate",
-              "taxa+characters+sets", "titles-links", "unknown-block", "all", "two-taxa-blocks"]
+              "taxa+characters+sets", "titles-links", "unknown-block", "all", "two-taxa-blocks",
+              "interleaved+trees", "char-flavours"]
 
 NEXUS_CHARSET_PROBE = ("#NEXUS\nBEGIN TAXA;\nDIMENSIONS NTAX=2;\nTAXLABELS A B;\nEND;\nBEGIN CHARACTERS;\nDIMENSIONS NCHAR=4;\n"
                        "FORMAT DATATYPE=DNA;\nMATRIX\nA ACGT\nB ACGT\n;\nEND;\nBEGIN SETS;\nCHARSET x = foo;\nEND;\n")
@@ -268,12 +336,9 @@ def chunked_families(reader, text, opts, kind, chunk=60):
 # what the NEXUS skeleton models (everything else goes through the oracle only)
 # ---------------------------------------------------------------------------------------------
 
-UNMODELLED_NEXUS = re.compile(r"(?i)INTERLEAVE|MATCHCHAR|SYMBOLS|CONTINUOUS|RESPECTCASE|EQUATE|TRANSPOSE|TOKENS|LABELS|ITEMS|STATESFORMAT")
 
 
 def nexus_modelled(text):
-    if UNMODELLED_NEXUS.search(text):
-        return False
     return True
 
 
@@ -299,29 +364,33 @@ FIXED = [
     ("nexus", TAXA2.replace("NTAX=2", "NTAX=3").replace("A B;", "A B C;") + CHARS2, "missing-row"),
     ("nexus", TAXA2 + "BEGIN TREES;\nTREE t = ", "tree-eof"),
     ("nexus", TAXA2 + "BEGIN TREES;\nTRANSLATE 1 A, 2", "translate-eof"),
+    ("nexus", TAXA2 + "BEGIN CHARACTERS;\nDIMENSIONS NCHAR=2;\nFORMAT SYMBOLS=\"AB BA\";\nMATRIX\nA AB\nB BA\n;\nEND;\n", "symbols-duplicate"),
+    ("nexus", TAXA2 + "BEGIN CHARACTERS;\nDIMENSIONS NCHAR=2;\nFORMAT SYMBOLS=\"\";\nMATRIX\nA 01\nB 10\n;\nEND;\n", "symbols-empty"),
+    ("nexus", TAXA2 + "BEGIN CHARACTERS;\nDIMENSIONS NCHAR=2;\nFORMAT DATATYPE=STANDARD MISSING=0;\nMATRIX\nA 01\nB 10\n;\nEND;\n", "missing-is-symbol"),
+    ("nexus", TAXA2 + "BEGIN CHARACTERS;\nDIMENSIONS NCHAR=2;\nFORMAT DATATYPE=STANDARD GAP=1;\nMATRIX\nA 01\nB 10\n;\nEND;\n", "gap-is-symbol"),
+    ("nexus", TAXA2 + "BEGIN CHARACTERS;\nDIMENSIONS NCHAR=3;\nFORMAT DATATYPE=CONTINUOUS;\nMATRIX\nA 1 2 3\nB 1 2\n;\nEND;\n", "continuous-short-row"),
+    ("nexus", TAXA2 + "BEGIN CHARACTERS;\nDIMENSIONS NCHAR=4;\nFORMAT DATATYPE=DNA INTERLEAVE;\nMATRIX\nA AC\nB AC\n\nA GT\nB G\n;\nEND;\n", "interleaved-short-row"),
+    ("nexus", TAXA2 + "BEGIN CHARACTERS;\nDIMENSIONS NCHAR=4;\nFORMAT DATATYPE=DNA INTERLEAVE;\nMATRIX\nA AC\nB AC\n\nA GT\nB GT\n;\nEND;\nBEGIN TREES;\nTRANSLATE\n1 A,\n2 B;\nTREE t = (1,\n2);\nEND;\n", "interleaved-then-multiline-trees"),
+    ("nexus", TAXA2 + "BEGIN CHARACTERS;\nDIMENSIONS NCHAR=2;\nFORMAT DATATYPE=DNA;\nMATRIX\nA {AG}{}\nB (A\n;\nEND;\n", "multistate-open"),
+    ("nexus", TAXA2 + "BEGIN CHARACTERS;\nDIMENSIONS NCHAR=2;\nFORMAT DATATYPE=DNA MATCHCHAR=;\nMATRIX\nA AC\nB ..\n;\nEND;\n", "matchchar-eof"),
     ("newick", "", "empty"), ("newick1", "", "empty"), ("newick1", ";", "no-trees"), ("newick", "(a,b));", "unbalanced"),
     ("phylip", "", "empty"), ("phylip", "2 4\na ACGT\nb ACG\n", "short-row"), ("phylip", "2 4\na ACGTA\nb ACGT\n", "long-row"),
     ("phylip", "2 4\na ACGT\na ACGT\nb ACGT\n", "repeated-label"),
     ("fasta", "", "empty"), ("fasta", "ACGT\n", "no-header"), ("fasta", ">a\n>b\nAC\n", "empty-seq"),
     ("nexus_trees", "", "empty"), ("nexus_trees", "#NEXUS\n", "minimal"), ("nexus_chars", "#NEXUS\n", "minimal"),
+    ("nexus_yield", "", "empty"), ("nexus_yield", "#NEXUS\n", "minimal"), ("nexus_yield", "(a,b);", "not-nexus"),
+    ("newick_yield", "", "empty"), ("newick_yield", "(a,b", "open"), ("nexusnewick_yield", "(a,b);(c,d);", "newick"),
+    ("nexusnewick_yield", "", "empty"),
 ]
 
 
-# witness document of every recorded defect site of the NEXUS skeleton, with the outcome class it has
-# while the site is unrepaired
+# witness document of every recorded (unrepaired) defect site of the NEXUS skeleton, with the test that tells
+# that the site is still in its unrepaired form
+_CH = "BEGIN CHARACTERS;\nDIMENSIONS NCHAR=%d;\nFORMAT %s;\nMATRIX\n%s;\nEND;\n"
 NEXUS_SITE_WITNESS = {
-    "link": ("#NEXUS\nBEGIN TREES;\nLINK FOO = x;\nEND;\n", "Hang"),
-    "positions": (NEXUS_CHARSET_PROBE, "Hang"),
-    "step0": (TAXA2 + CHARS2 + "BEGIN SETS;\nCHARSET x = 1-4\\0;\nEND;\n", "ValueErr"),
-    "empty": ("", "AttrErr"),
-    "taxlabels_eof": ("#NEXUS BEGIN TAXA; DIMENSIONS NTAX=3; TAXLABELS", "AttrErr"),
-    "taxlabels_nodims": ("#NEXUS BEGIN TAXA; TAXLABELS A B;END;", "TypeErr"),
-    "tree_eof": (TAXA2 + "BEGIN TREES;\nTREE t = ", "AttrErr"),
-    "untitled": (TAXA2 + CHARS2 + "BEGIN SETS;\nLINK CHARACTERS = c;\nCHARSET x = 1;\nEND;\n", "AttrErr"),
-    "blockterm": (TAXA2 + "BEGIN CHARACTERS;\nDIMENSIONS NCHAR=4;\nFORMAT DATATYPE=DNA;\nMATRIX\nA ACGT\nB ACG\n;\nEND;\n", "OtherErr"),
-    "datatype": (TAXA2 + "BEGIN CHARACTERS;\nDIMENSIONS NCHAR=2;\nMATRIX\nA 01\nB 10\n;\nEND;\n", "TypeErr"),
-    "truncmatrix": (TAXA2 + "BEGIN CHARACTERS;\nDIMENSIONS NCHAR=4;\nFORMAT DATATYPE=DNA;\nMATRIX\nA ACGT\n", "Ok"),
-    "charsetdup": (TAXA2 + CHARS2 + "BEGIN SETS;\nCHARSET x = 1;\nCHARSET x = 2;\nEND;\n", "ValueErr"),
+    "cblock": (TAXA2 + _CH % (3, "DATATYPE=CONTINUOUS", "A 1 2 3\nB 1 2\n"), lambda ob: ob["cls"] == "OtherErr"),
+    "alpha": (TAXA2 + _CH % (2, 'SYMBOLS="AB BA"', "A AB\nB BA\n"), lambda ob: ob["cls"] == "ValueErr"),
+    "ildims": (TAXA2 + _CH % (4, "DATATYPE=DNA INTERLEAVE", "A AC\nB AC\n\nA GT\nB G\n"), lambda ob: ob["cls"] == "Ok"),
 }
 
 
@@ -331,6 +400,7 @@ def deep_probes(tier):
         # CPython's recursion limit is a runtime limit outside the models: oracle only
         out.append({"reader": "newick", "text": "(" * d + "a" + ")" * d + ";", "kind": "deep-nesting-%d" % d, "model": False})
         out.append({"reader": "newick", "text": "[x] " * d + "(a,b);", "kind": "many-comments-%d" % d, "model": False})
+        out.append({"reader": "newick_yield", "text": "(" * d + "a" + ")" * d + ";", "kind": "deep-nesting-%d" % d, "model": False})
         out.append({"reader": "nexus", "text": TAXA2 + "BEGIN TREES;\nTREE t = " + "(" * d + "A" + ")" * d + ";\nEND;\n",
                     "kind": "deep-nesting-%d" % d, "model": False})
     return out
@@ -378,6 +448,10 @@ def cases(rng, tier):
         out.append({"reader": "fasta", "text": random_string(rng, FASTA_ALPHABET, 40), "kind": "alphabet-random"})
         out.append({"reader": "nexus", "text": "#NEXUS " * (rng.random() < 0.85) + random_string(rng, NEXUS_WORDS, 14, " "),
                     "kind": "alphabet-random", "slack": True})
+        if rng.random() < 0.3:
+            out.append({"reader": "newick_yield", "text": random_string(rng, NEWICK_ALPHABET, 40), "kind": "alphabet-random"})
+            out.append({"reader": rng.choice(["nexus_yield", "nexusnewick_yield"]),
+                        "text": "#NEXUS " * (rng.random() < 0.7) + random_string(rng, NEXUS_WORDS, 14, " "), "kind": "alphabet-random"})
     # --- valid documents, their truncations, their edits
     nd = 1 if quick else 6
     for s in STRUCTURES:
@@ -389,8 +463,8 @@ def cases(rng, tier):
                 out.extend(family("nexus", text, {}, "truncation-sampled:" + st, cuts[i:i + 60]) for i in range(0, len(cuts), 60))
                 continue
             out.extend(chunked_families("nexus", text, {}, "truncation:" + st))
-            for r2 in ("nexus_trees", "nexus_chars"):
-                if quick and rng.random() < 0.6:
+            for r2 in ("nexus_trees", "nexus_chars", "nexus_yield", "nexusnewick_yield"):
+                if quick and rng.random() < 0.7:
                     continue
                 out.extend(chunked_families(r2, text, {}, "truncation:" + st))
             for _e in range(6 if quick else 40):
@@ -400,6 +474,8 @@ def cases(rng, tier):
         out.append({"reader": "newick", "text": text, "kind": "valid"})
         out.extend(chunked_families("newick", text, {}, "truncation"))
         out.extend(chunked_families("newick1", text, {}, "truncation"))
+        out.extend(chunked_families("newick_yield", text, {}, "truncation"))
+        out.extend(chunked_families("nexusnewick_yield", text, {}, "truncation"))
         for _e in range(10 if quick else 40):
             out.append(edited(rng, "newick", text, {}, rng.choice([1, 1, 2])))
     for mode in ["relaxed", "strict", "interleaved", "multispace"]:
@@ -415,6 +491,20 @@ def cases(rng, tier):
         out.extend(chunked_families("fasta", text, {}, "truncation"))
         for _e in range(10 if quick else 40):
             out.append(edited(rng, "fasta", text, {}, rng.choice([1, 1, 2])))
+    # every character-block flavour, with all its truncation points
+    for fl in CHAR_FLAVOURS:
+        for _ in range(1 if quick else 3):
+            text, _st = gen_nexus(rng, "flavour", fl)
+            out.append({"reader": "nexus", "text": text, "kind": "valid:flavour:" + fl})
+            if quick:      # every cut inside the CHARACTERS block, every third elsewhere
+                lo = text.find("BEGIN CHARACTERS")
+                hi = text.find("BEGIN TREES") if "BEGIN TREES" in text else len(text)
+                cuts = [k for k in range(len(text) + 1) if lo <= k <= hi and (k % 2 == 0 or text[k - 1:k] in "\n; ") or k % 3 == 0]
+                out.extend(family("nexus", text, {}, "truncation-sampled:flavour:" + fl, cuts[i:i + 60]) for i in range(0, len(cuts), 60))
+            else:
+                out.extend(chunked_families("nexus", text, {}, "truncation:flavour:" + fl))
+            for _e in range(4 if quick else 30):
+                out.append(edited(rng, "nexus", text, {}, rng.choice([1, 1, 2])))
     # a few inputs with characters outside ASCII
     for t in ["(é,中);", ">é\nAC→G\n", "1 2\n中 AC\n", "#NEXUS\nBEGIN TAXA;\nDIMENSIONS NTAX=1;\nTAXLABELS é;\nEND;\n",
               "١ ٢\na A\n\n", "1 2\na AC\n\n", ">a\nA C\n"]:
